@@ -50,8 +50,14 @@ def sweep_property(run, tier, seed, pid, extra_dags=(), describe=''):
     run.oblige(f'correspondence: model == implementation on {len(dags)} DAGs (section {pid})', not diverging,
                '' if not diverging else f'{len(diverging)} diverging DAGs; first: n={dags[diverging[0]][0]} edges={names(dags[diverging[0]][1])}')
     found = False
+    raised = {(n, tuple(map(tuple, a))) for n, a, _ in D.EXCEPTIONS}
+    for n, a, msg in D.EXCEPTIONS[:2]:
+        why = f'a query raised {msg} on a DAG whose nodes all exist (node names {list(D.names_for(n, a)[:n])!r})'
+        run.violation(dict(n=n, arcs=a, edges=names(a), why=why, replay_cmd=f'./check {pid} --replay <this file>'), note=why[:200])
+        found = True
+    del D.EXCEPTIONS[:]
     for pos, why in PRED[pid]:
-        bad = [i for i, r in enumerate(out) if r[pos] != 1]
+        bad = [i for i, r in enumerate(out) if r[pos] != 1 and (dags[i][0], tuple(map(tuple, dags[i][1]))) not in raised]
         for i in bad[:2]:
             n, a = dags[i]
             run.violation(dict(n=n, arcs=a, edges=names(a), why=why, replay_cmd=f'./check {pid} --replay <this file>'), note=why)
@@ -62,7 +68,10 @@ def sweep_property(run, tier, seed, pid, extra_dags=(), describe=''):
         ref = REFERENCE.get(pid)
         for i in sorted(diverging, key=lambda i: (dags[i][0], len(dags[i][1])))[:40]:
             n, a = dags[i]
-            why = ref(n, a) if ref else None
+            try:
+                why = ref(n, a) if ref else None
+            except Exception as e:  # noqa: BLE001  (on a DAG with existing nodes every query of these properties must answer)
+                why = f'a query raised {type(e).__name__}: {e} (node names {list(D.names_for(n, a)[:n])!r})'
             if why:
                 run.violation(dict(n=n, arcs=a, edges=names(a), why=why, replay_cmd=f'./check {pid} --replay <this file>'), note=why[:200])
                 found = True
@@ -89,7 +98,10 @@ def replay_dag(run, path, pid):
             run.violation(dict(c, why=why), note=why)
     from .refdefs import REFERENCE
     if pid in REFERENCE and not run.violations:
-        why = REFERENCE[pid](*dags[0])
+        try:
+            why = REFERENCE[pid](*dags[0])
+        except Exception as e:  # noqa: BLE001
+            why = f'a query raised {type(e).__name__}: {e} (node names {list(D.names_for(*dags[0])[:dags[0][0]])!r})'
         print('reference definition check:', why)
         if why:
             run.violation(dict(c, why=why), note=why[:200])
